@@ -13,7 +13,7 @@ stages (Model/DkgSession.lean) do nothing else with a generator.
 Helper lemmas: Proofs/Dkg*.lean; reconstruction uses C09 (`Proofs/Share.lean`).
 -/
 import DosModel.Proofs.DkgHonest
-import DosModel.Proofs.DkgLive
+import DosModel.Proofs.DkgLiveGlobal
 import Mathlib.Algebra.Order.Field.Rat
 
 set_option linter.unusedSectionVars false
@@ -85,16 +85,28 @@ theorem reconstruct (c : Cfg F G) (hg : c.g ≠ 0) (hnd : c.pubs.Nodup) (hpl : c
   refine ⟨hrec, ?_⟩
   rw [(share_on_poly c hg hnd hpl t ht i d ks hr h).2.1, headD_commit, headD_vecSum t c.polys ht]
 
-/-- **5 (partial). the session layer of `complete_delivery_finishes`.**  The FULL statement is
-`Dos.Dkg.CompleteDeliveryFinishes c ephs` (Proofs/DkgLive.lean): in every run of the member machines of
-a well-formed honest group in which every member is started and every message sent is delivered at
-least once – any order, skew, re-delivery – every member reaches `done`.
-Proved here is its session-layer core, for ANY message kind with de-duplication by a key (public
-keys and deals by index, responses by (dealer, responder) since fix 41ce4e1): if the request for
-`|K|` messages is registered once and a message of every key of `K` arrives at least once – before or
-after the registration, in any order, any number of times – `Loop` hands the waiting stage exactly
+/-- **5. `complete_delivery_finishes`.**  `runEvents c ephs evs` (Model/DkgNet.lean) runs the `n` member
+machines of the group – session layer of `pdkg.Loop` + the stages of `Grouping` – under the schedule
+`evs`: any list of `start i`, `pk j i`, `deal j i`, `resps k i` events (a delivery of a message that
+does not exist yet does nothing; everything else – every order, start skew, re-delivery – is a
+schedule).  For every well-formed honest configuration (`n ≥ 3`, pairwise distinct public keys,
+polynomials of length `n/2+1`, non-zero ephemerals) and EVERY schedule in which every member is
+started and every message that is sent is delivered to every other member at least once, every
+member ends in stage `done`.  (On the pinned tree this is false: F11 and the blocking reply channel,
+fixed by 41ce4e1 and 0865f79 – corpus/C04.)  Proof: Proofs/DkgLive*.lean – the session layer hands
+each batch over exactly once with one message per key (`pair_step_inv`), every stage succeeds on a
+batch of genuine messages (`adv_pk`, `adv_dl`, `adv_rs`), all messages in flight are genuine
+(`sysInv_step`), and completeness drives every member through the three stages. -/
+theorem complete_delivery_finishes (c : Cfg F G) (ephs : List (List F)) (hw : WellFormed c ephs)
+    (evs : List Ev) (hcomp : Complete c.n (runEvents c ephs evs)) :
+    ∀ i, i < c.n → ∃ m d ks, (runEvents c ephs evs).ms[i]? = some m ∧ m.stage = .done d ks :=
+  complete_finishes c ephs hw evs hcomp
+
+/-- **5a. the session layer alone**, for ANY message kind with de-duplication by a key: if the request
+for `|K|` messages is registered once and a message of every key of `K` arrives at least once – before
+or after the registration, in any order, any number of times – `Loop` hands the waiting stage exactly
 one batch, with exactly one message per key.  (Without de-duplication this is false: F11.) -/
-theorem complete_delivery_partial {M κ : Type} [DecidableEq κ] (key : M → κ) (K : List κ) (hK : K.Nodup)
+theorem session_hands_over_once {M κ : Type} [DecidableEq κ] (key : M → κ) (K : List κ) (hK : K.Nodup)
     (evs : List (PEv M)) (hok : OkEvs (fun _ => True) key K K.length false evs)
     (hreg : endsRegistered false evs = true) (hall : ∀ x ∈ K, x ∈ msgKeys key evs) :
     ∃ b, (pairRun (fun a b => decide (key a = key b)) evs).2 = some b ∧ (b.map key).Nodup ∧
@@ -120,6 +132,17 @@ example : (pairRun (fun a b : Nat × Nat => decide (a.1 = b.1)) [.msg (1, 7), .m
 -- configuration is well formed
 example : (exGen 0 5 [4, 2]).isSome ∧ (exGen 1 7 [6, 1]).isSome ∧ (exGen 2 9 [3, 8]).isSome := by decide +kernel
 example : exCfg.pubs.Nodup ∧ exCfg.polys.length = exCfg.n ∧ ∀ f ∈ exCfg.polys, f.length = 2 := by decide +kernel
+def exEphs : List (List ℚ) := [[11, 12, 13], [21, 22, 23], [31, 32, 33]]
+/-- canonical schedule: everybody starts, then keys, deals, responses; each delivered twice -/
+def exSched : List Ev :=
+  let pairs := [(0, 1), (0, 2), (1, 0), (1, 2), (2, 0), (2, 1)]
+  [.start 0, .start 1, .start 2] ++ pairs.map (fun p => Ev.pk p.1 p.2) ++ pairs.map (fun p => Ev.deal p.1 p.2) ++
+    pairs.map (fun p => Ev.pk p.1 p.2) ++ pairs.map (fun p => Ev.resps p.1 p.2) ++ pairs.map (fun p => Ev.resps p.1 p.2)
+-- 5: a well-formed configuration, and a schedule with re-deliveries under which all three machines finish
+example : exCfg.g ≠ 0 ∧ 3 ≤ exCfg.n ∧ exEphs.length = exCfg.n ∧ ∀ es ∈ exEphs, es.length = exCfg.n ∧ ∀ e ∈ es, e ≠ 0 := by
+  decide +kernel
+example : (runEvents exCfg exEphs exSched).ms.map (fun m => match m.stage with | .done _ _ => true | _ => false)
+    = [true, true, true] := by decide +kernel
 end Examples
 
 end Dos.Props.C04
